@@ -49,6 +49,14 @@ impl vstd::std_specs::cmp::OrdSpecImpl for Epoch {
 #[verifier::external_body] pub struct StakeDistributionParty { _p: core::marker::PhantomData<u8> }
 #[verifier::external_body] pub struct PartyIds { _p: core::marker::PhantomData<u8> }
 #[verifier::external_body] pub struct Message { _p: core::marker::PhantomData<u8> }
+pub uninterp spec fn entity_epoch(t: &SignedEntityType) -> Epoch;
+pub uninterp spec fn entity_signing_epoch(t: &SignedEntityType) -> Epoch;
+impl SignedEntityType {
+    #[verifier::external_body]
+    pub fn get_epoch(&self) -> (r: Epoch) ensures r == entity_epoch(self) { unimplemented!() }
+    #[verifier::external_body]
+    pub fn get_epoch_when_signed_entity_type_is_signed(&self) -> (r: Epoch) ensures r == entity_signing_epoch(self) { unimplemented!() }
+}
 impl Clone for SignedEntityType { #[verifier::external_body] fn clone(&self) -> (r: Self) ensures r == *self { unimplemented!() } }
 impl Clone for ProtocolMessage { #[verifier::external_body] fn clone(&self) -> (r: Self) ensures r == *self { unimplemented!() } }
 impl Clone for ProtocolParameters { #[verifier::external_body] fn clone(&self) -> (r: Self) ensures r == *self { unimplemented!() } }
@@ -124,6 +132,9 @@ pub uninterp spec fn message_of(p: &ProtocolMessage) -> Message;
 pub uninterp spec fn open_message_for(r: &OpenMessageRepository, t: &SignedEntityType) -> Option<OpenMessageWithSingleSignaturesRecord>;
 /// update_open_message(record) was called on the repository with this record
 pub uninterp spec fn open_message_updated(r: &OpenMessageRepository, rec: OpenMessageRecord) -> bool;
+pub uninterp spec fn expired_open_message(r: &OpenMessageRepository, t: &SignedEntityType) -> Option<OpenMessageRecord>;
+/// create_open_message(epoch, type, message) was called and returned this record
+pub uninterp spec fn open_message_created(r: &OpenMessageRepository, e: Epoch, t: &SignedEntityType, m: &ProtocolMessage, rec: OpenMessageRecord) -> bool;
 pub uninterp spec fn master_certificate(r: &CertificateRepository, e: Epoch) -> Option<Certificate>;
 pub uninterp spec fn latest_genesis_certificate(r: &CertificateRepository) -> Option<Certificate>;
 pub uninterp spec fn latest_certificate(r: &CertificateRepository) -> Option<Certificate>;
@@ -132,6 +143,8 @@ pub uninterp spec fn certificate_stored(r: &CertificateRepository, c: Certificat
 /// the verifier's verify_certificate / verify_certificate_chain accepted this certificate (their contracts: C03)
 pub uninterp spec fn verifier_accepted(v: &CertificateVerifier, c: &Certificate) -> bool;
 pub uninterp spec fn verifier_accepted_chain(v: &CertificateVerifier, c: Certificate) -> bool;
+/// some certificate verifier's verify_certificate returned Ok for this certificate (used to order "verified BEFORE stored")
+pub uninterp spec fn accepted_before(c: &Certificate) -> bool;
 /// the multi-signer's answers (its contracts: C01 / C16)
 pub uninterp spec fn multi_signature_for(m: &MultiSigner, o: &OpenMessage, a: AncillaryInput) -> Option<MultiSignatureWithAncillaryData>;
 pub uninterp spec fn single_signature_accepted(m: &MultiSigner, msg: Message, s: &SingleSignature) -> bool;
@@ -146,7 +159,22 @@ pub uninterp spec fn ancillary_input(genesis: &Certificate, parent: &Certificate
 
 pub struct MultiSignatureWithAncillaryData { pub multi_signature: ProtocolMultiSignature, pub ancillary_prover_data: AncillaryProverData, pub ancillary_verifier_data: AncillaryVerifierData }
 
+#[verifier::external_body]
+fn open_message_of_plain(r: OpenMessageRecord) -> (o: OpenMessage)
+    ensures o.is_certified == r.is_certified, o.is_expired == r.is_expired, o.epoch == r.epoch, o.protocol_message == r.protocol_message, o.created_at == r.created_at
+{ unimplemented!() }
+#[verifier::external_body]
+fn map_open_message_of_plain(r: Option<OpenMessageRecord>) -> (o: Option<OpenMessage>)
+    ensures (o is Some) == (r is Some), r is Some ==> o->Some_0.is_expired == r->Some_0.is_expired && o->Some_0.is_certified == r->Some_0.is_certified && o->Some_0.epoch == r->Some_0.epoch
+            && o->Some_0.protocol_message == r->Some_0.protocol_message
+{ unimplemented!() }
 impl OpenMessageRepository {
+    #[verifier::external_body]
+    pub fn get_expired_open_message(&self, t: &SignedEntityType) -> (r: Result<Option<OpenMessageRecord>, StdError>) ensures r is Ok ==> r->Ok_0 == expired_open_message(self, t) { unimplemented!() }
+    #[verifier::external_body]
+    pub fn create_open_message(&self, e: Epoch, t: &SignedEntityType, m: &ProtocolMessage) -> (r: Result<OpenMessageRecord, StdError>)
+        ensures r is Ok ==> open_message_created(self, e, t, m, r->Ok_0)
+    { unimplemented!() }
     #[verifier::external_body]
     pub fn get_open_message_with_single_signatures(&self, t: &SignedEntityType) -> (r: Result<Option<OpenMessageWithSingleSignaturesRecord>, StdError>)
         ensures r is Ok ==> r->Ok_0 == open_message_for(self, t)
@@ -166,14 +194,18 @@ impl CertificateRepository {
     #[verifier::external_body]
     pub fn get_latest_genesis_certificate(&self) -> (r: Result<Option<Certificate>, StdError>) ensures r is Ok ==> r->Ok_0 == latest_genesis_certificate(self) { unimplemented!() }
     #[verifier::external_body]
-    pub fn create_certificate(&self, c: Certificate) -> (r: Result<Certificate, StdError>) ensures r is Ok ==> r->Ok_0 == c && certificate_stored(self, c) { unimplemented!() }
+    /// a certificate may be handed to the repository only AFTER the certificate verifier accepted it
+    pub fn create_certificate(&self, c: Certificate) -> (r: Result<Certificate, StdError>)
+        requires accepted_before(&c)
+        ensures r is Ok ==> r->Ok_0 == c && certificate_stored(self, c)
+    { unimplemented!() }
     /// `get_latest_certificates::<Certificate>(1).await?.first()`
     #[verifier::external_body]
     pub fn get_latest_certificate(&self) -> (r: Result<Option<Certificate>, StdError>) ensures r is Ok ==> r->Ok_0 == latest_certificate(self) { unimplemented!() }
 }
 impl CertificateVerifier {
     #[verifier::external_body]
-    pub fn verify_certificate(&self, c: &Certificate) -> (r: Result<Option<Certificate>, StdError>) ensures r is Ok ==> verifier_accepted(self, c) { unimplemented!() }
+    pub fn verify_certificate(&self, c: &Certificate) -> (r: Result<Option<Certificate>, StdError>) ensures r is Ok ==> verifier_accepted(self, c) && accepted_before(c) { unimplemented!() }
     #[verifier::external_body]
     pub fn verify_certificate_chain(&self, c: Certificate) -> (r: Result<(), StdError>) ensures r is Ok ==> verifier_accepted_chain(self, c) { unimplemented!() }
 }
@@ -238,6 +270,53 @@ fn get_open_message_record(
             .get_open_message_with_single_signatures(signed_entity_type)?;
 
         Ok(open_message_with_single_signatures)
+    }
+// ---- end of extracted text ----
+
+// ---- extracted from mithril-aggregator/src/services/certifier/certifier_service.rs:183 (fn create_open_message) ----
+fn create_open_message(
+        &self,
+        signed_entity_type: &SignedEntityType,
+        protocol_message: &ProtocolMessage,
+    ) -> (ret: Result<OpenMessage, StdError>)
+    ensures ret is Ok ==> exists|rec: OpenMessageRecord| #[trigger] open_message_created(&self.open_message_repository, entity_signing_epoch(signed_entity_type), signed_entity_type, protocol_message, rec)
+        && ret->Ok_0.epoch == rec.epoch && ret->Ok_0.protocol_message == rec.protocol_message
+{
+                let open_message = self
+            .open_message_repository
+            .create_open_message(
+                signed_entity_type.get_epoch_when_signed_entity_type_is_signed(),
+                signed_entity_type,
+                protocol_message,
+            )?;
+                
+        Ok(open_message_of_plain(open_message))
+    }
+// ---- end of extracted text ----
+
+// ---- extracted from mithril-aggregator/src/services/certifier/certifier_service.rs:238 (fn mark_open_message_if_expired) ----
+fn mark_open_message_if_expired(
+        &self,
+        signed_entity_type: &SignedEntityType,
+    ) -> (ret: Result<Option<OpenMessage>, StdError>)
+    ensures ret is Ok ==> ({
+        let e = expired_open_message(&self.open_message_repository, signed_entity_type);
+        &&& (ret->Ok_0 is Some) == (e is Some)
+        // an open message past its deadline is PERSISTED as expired (the stored flag is what later calls read), and reported as such
+        &&& e is Some ==> ret->Ok_0->Some_0.is_expired && open_message_updated(&self.open_message_repository, OpenMessageRecord { is_expired: true, ..e->Some_0 })
+    }),
+{
+        
+        let mut open_message_record = self
+            .open_message_repository
+            .get_expired_open_message(signed_entity_type)?;
+        if let Some(open_message_record) = open_message_record.as_mut() {
+            open_message_record.is_expired = true;
+            self.open_message_repository
+                .update_open_message(open_message_record)?;
+        }
+
+        Ok(map_open_message_of_plain(open_message_record))
     }
 // ---- end of extracted text ----
 
